@@ -199,13 +199,19 @@ fn build_output_path(root: &Path, rel_path: &Path, orm: Orm) -> PathBuf {
     // Sanitize file name: replace spaces with underscores
     let mut out = root.to_path_buf();
 
-    // Reconstruct path with sanitized file name
-    for component in rel_path.components() {
-        if let std::path::Component::Normal(name) = component {
-            out.push(name);
-        } else {
-            out.push(component.as_os_str());
+    // Reconstruct path: directory components are sanitized the same way as the file stem, so that
+    // they are valid module names and ensure_mod_chain can name exactly these directories.
+    if let Some(parent) = rel_path.parent() {
+        for component in parent.components() {
+            if let std::path::Component::Normal(name) = component {
+                out.push(sanitize_filename(&name.to_string_lossy()));
+            } else {
+                out.push(component.as_os_str());
+            }
         }
+    }
+    if let Some(name) = rel_path.file_name() {
+        out.push(name);
     }
 
     // Sanitize the file name (last component)
@@ -254,26 +260,22 @@ async fn load_models_recursive(base: &Path) -> Result<Vec<(TableDef, PathBuf)>> 
 
 async fn ensure_mod_chain(root: &Path, rel_path: &Path) -> Result<()> {
     // Only needed for SeaORM (Rust) exports to wire modules.
-    // Strip extension and ".vespertide" suffix from filename
-    let path_without_ext = rel_path.with_extension("");
-    let path_stripped = if let Some(stem) = path_without_ext.file_stem().and_then(|s| s.to_str()) {
-        let stripped_stem = stem.strip_suffix(".vespertide").unwrap_or(stem);
-        if let Some(parent) = path_without_ext.parent() {
-            parent.join(stripped_stem)
-        } else {
-            PathBuf::from(stripped_stem)
-        }
-    } else {
-        path_without_ext
-    };
-    let mut comps: Vec<String> = path_stripped
+    // The module path is the path build_output_path gives the entity file (relative to the root,
+    // without ".rs"), so every `pub mod` line names a directory or file that the export wrote.
+    let out_rel = build_output_path(Path::new(""), rel_path, Orm::SeaOrm);
+    let mut comps: Vec<String> = out_rel
         .components()
-        .filter_map(|c| {
-            c.as_os_str()
-                .to_str()
-                .map(|s| sanitize_filename(s).to_string())
+        .filter_map(|c| match c {
+            std::path::Component::Normal(s) => s.to_str().map(|s| s.to_string()),
+            _ => None,
         })
         .collect();
+    if let Some(last) = comps.last_mut()
+        && let Some(stem) = last.strip_suffix(".rs")
+    {
+        *last = stem.to_string();
+    }
+    comps.retain(|c| !c.is_empty());
     if comps.is_empty() {
         return Ok(());
     }
